@@ -205,6 +205,8 @@ class RealSched:
             self.sched = sched_class(mode)(config)
             self.sched.log = lambda *a, **k: None  # the default Producer prints to stderr
             return f"ok | - | - | {self.obs()}"
+        if self.dead and op in ("down", "broken", "spec"):
+            return "dead"
         if op == "down":
             self.node(int(ws[1]))._down = True
             return f"ok | - | - | {self.obs()}"
@@ -307,11 +309,14 @@ class Walk:
         self.nextid = 0
         self.tocollect: list[int] = []
         self.collection: list[str] = []
+        self.mon = Monitor(mode, res)
 
     def do(self, line: str) -> str:
+        before = self.snapshot()
         out = self.real.apply(line)
         self.ops.append(line)
         self.impl.append(out)
+        self.mon.observe(line, out, before, self.snapshot(), self.ops)
         self.res.hit("op:" + line.split()[0])
         if not out.startswith("ok") and out not in ("dead",):
             self.res.hit("err:" + out)
@@ -321,6 +326,24 @@ class Walk:
                     _, n, idx = part.split(":")
                     self.steal_out[int(n)] = [int(x) for x in idx.split(",")]
         return out
+
+    def snapshot(self) -> dict:
+        s = self.real.sched
+        if s is None:
+            return {"books": {}, "pool": [], "col": None, "sd": {}}
+        if self.mode in ("load", "worksteal"):
+            pool = list(s.pending)
+            col = s.collection
+        elif self.mode == "each":
+            pool, col = [], None
+        else:
+            col = s.collection
+            pool = []
+            if col:
+                for u in s.workqueue.values():
+                    pool += [col.index(t) for t, d in u.items() if not d and t in col]
+        return {"books": self.books(), "pool": pool, "col": None if col is None else list(col),
+                "sd": {n._verif_id: n.shutting_down for n in self.real.nodes.values()}}
 
     def books(self) -> dict[int, list[int]]:
         s = self.real.sched
@@ -452,7 +475,106 @@ class Walk:
             f"pend {esc(rng.choice(self.collection) if self.collection and rng.random() < .7 else 'nope')}",
         ][choice]
         self.res.hit("illegal")
+        self.mon.illegal_seen = True
         self.do(line)
+
+
+class Monitor:
+    """Property predicates evaluated on the implementation's side of a scheduler trace (failing-input search)."""
+
+    def __init__(self, mode: str, res: CompResult) -> None:
+        from collections import Counter
+
+        self.mode, self.res = mode, res
+        self.shut: set[int] = set()
+        self.completed: Counter = Counter()
+        self.crashed: Counter = Counter()
+        self.requeued: Counter = Counter()
+        self.started: Counter = Counter()
+        self.had_crash = False
+        self.had_requeue = False
+        self.fired: set[str] = set()
+        self.illegal_seen = False
+
+    def fire(self, props: list[str], sig: str, what: str, ops: list[str], detail: dict) -> None:
+        if sig in self.fired:
+            return
+        self.fired.add(sig)
+        for p in props:
+            self.res.violations.append(Violation(p, f"sched.{self.mode}", what, sig, list(ops), detail))
+
+    def observe(self, line: str, out: str, before: dict, after: dict, ops: list[str]) -> None:
+        from collections import Counter
+
+        mode = self.mode
+        if not out.startswith("ok") or self.illegal_seen:
+            return
+        parts = out.split(" | ")
+        outs = [] if parts[1] == "-" else parts[1].split(";")
+        op = line.split()
+        col = after["col"]
+        lb = mode != "each"
+        # ---- wire (C16)
+        for o in outs:
+            f = o.split(":")
+            if f[0] in ("run", "steal", "shutdown", "runall"):
+                n = int(f[1])
+                if n in self.shut:
+                    self.fire(["C16"], f"command-after-shutdown:{f[0]}", f"{o} sent to gw{n} after its shutdown signal", ops, {"out": out})
+                if f[0] == "shutdown":
+                    self.shut.add(n)
+                if f[0] == "run" and lb:
+                    idx = [int(x) for x in f[2].split(",")] if f[2] != "-" else []
+                    if col is not None and any(i >= len(col) for i in idx):
+                        self.fire(["C16"], "run-index-out-of-range", f"{o}: index beyond the agreed collection", ops, {"len": len(col)})
+                    if len(set(idx)) != len(idx):
+                        self.fire(["C16", "C01"], "run-index-twice-in-command", f"{o} repeats an index", ops, {})
+                if f[0] == "steal":
+                    idx = [int(x) for x in f[2].split(",")] if f[2] != "-" else []
+                    book = after["books"].get(n, [])
+                    if any(i not in book for i in idx):
+                        self.fire(["C16", "C07"], "steal-not-in-book", f"{o}: not all queued on gw{n} ({book})", ops, {})
+        # ---- crash item (C03)
+        if op[0] == "rm":
+            n = int(op[1])
+            book = before["books"].get(n, [])
+            ret = parts[2]
+            c = before["col"]
+            if mode == "each":
+                c = None
+            if book:
+                self.had_crash = True
+                self.crashed[book[0]] += 1
+                if c is not None and ret != "crash:" + esc(c[book[0]]):
+                    self.fire(["C03"], "wrong-crash-item", f"remove_node returned {ret}, the dead worker was on {c[book[0]]!r}", ops, {"book": book})
+            elif ret != "crash:None":
+                self.fire(["C03"], "crash-item-for-idle-node", f"remove_node returned {ret} for a node holding nothing", ops, {})
+        if op[0] == "done":
+            self.completed[int(op[2])] += 1
+        if op[0] == "pend" and before["col"] is not None:
+            t = unesc(op[1])
+            if t in before["col"]:
+                self.had_requeue = True
+                self.requeued[before["col"].index(t)] += 1
+        if op[0] == "sched" and before["col"] is None and after["col"] is not None:
+            self.started = Counter(range(len(after["col"])))
+        # ---- ledger (C01 / C03 / C15), load-balancing modes, duplicate-free collection
+        if lb and col is not None and len(set(col)) == len(col):
+            outstanding = Counter(after["pool"])
+            for b_ in after["books"].values():
+                outstanding += Counter(b_)
+            twice = sorted(i for i, c in outstanding.items() if c > 1 and self.requeued[i] == 0)
+            if twice:
+                self.fire(["C16", "C01"], "index-outstanding-twice", f"indices {twice} are outstanding twice (pool/books {after['pool']} {after['books']})",
+                          ops, {"line": line, "out": out})
+            lhs = outstanding + self.completed + self.crashed
+            rhs = self.started + self.requeued
+            if lhs != rhs:
+                props = ["C15"] if self.had_requeue else (["C03"] if self.had_crash else ["C01"])
+                lost = sorted((rhs - lhs).elements())
+                extra = sorted((lhs - rhs).elements())
+                self.fire(props, "ledger-unbalanced", f"tests lost {lost} / duplicated {extra} in the controller's books", ops,
+                          {"pool": after["pool"], "books": after["books"]})
 
 
 def nontrivial(ops: list[str]) -> bool:
